@@ -20,6 +20,10 @@ Optional keys of a case (the "alternate run" of harness/props/c10.py: every answ
   "forms": "alt" -- the same call / the same object through another public argument form (version positional or
       left to its default, constants from their text forms, keyword arguments, plain values for qualifiers);
       "alt_k" rotates which form is taken
+  "hist": "merge" | "extend" -- a history for objects built through the classes: every object path is first built
+      from a prefix of its steps, the whole object is PRINTED, then the remaining steps are added through the public
+      mutator ObjectPath.merge (or by extending the public property_path list in place), and only then the object is
+      observed; what is observed must be what the finished object is
 Worker argument --hashseed=N: re-executes the interpreter with PYTHONHASHSEED=N.
 """
 import datetime
@@ -484,6 +488,7 @@ def meaning_of_object(o):
 # ---------------------------------------------------------------- programmatic construction
 
 ALT = {"on": False, "k": 0}
+HIST = {"mode": None, "pending": []}
 
 
 def alt(n):
@@ -561,7 +566,31 @@ def b_comp(s):
 
 
 def b_path(s):
-    return P.ObjectPath(s["type"], [b_comp(c) for c in s["comps"]])
+    comps = s["comps"]
+    if HIST["mode"] and len(comps) >= 2:
+        HIST["n"] = HIST.get("n", 0) + 1
+        cut = 1 + HIST["n"] % (len(comps) - 1)
+        path = P.ObjectPath(s["type"], [b_comp(c) for c in comps[:cut]])
+        HIST["pending"].append((path, s["type"], comps[cut:]))
+        return path
+    return P.ObjectPath(s["type"], [b_comp(c) for c in comps])
+
+
+def finish_history(obj):
+    """print the unfinished object, then complete every path through the public mutators"""
+    if not HIST["pending"]:
+        return
+    try:
+        str(obj)
+    except Exception:  # noqa: BLE001
+        pass
+    for path, typ, rest in HIST["pending"]:
+        str(path)
+        if HIST["mode"] == "merge":
+            path.merge(P.ObjectPath(typ, [b_comp(c) for c in rest]))
+        else:
+            path.property_path.extend(P.ObjectPath(typ, [b_comp(c) for c in rest]).property_path)
+    HIST["pending"] = []
 
 
 CMP_BY_NAME = {v: k for k, v in CMP.items()}
@@ -684,11 +713,15 @@ def run_parse(case):
 def run_prog(case):
     version = case.get("version", "2.1")
     res = {}
+    HIST["mode"], HIST["pending"], HIST["n"] = case.get("hist"), [], int(case.get("alt_k", 0))
     try:
         obj = b_expr(case["spec"])
+        finish_history(obj)
     except Exception as e:  # noqa: BLE001
         res["ast"] = "BUILD-" + exc_name(e)
         return res
+    finally:
+        HIST["mode"] = None
     observe_object(obj, version, res)
     return res
 
